@@ -381,8 +381,8 @@ fn reject_case(sg: bool, wa: u32, wb: u32, a: u128, b: u128, out: &mut Out) {
     );
 }
 
-const QUICK_WIDTHS: [u32; 33] = [
-    1, 2, 3, 4, 5, 6, 7, 8, 9, 10, 11, 12, 13, 14, 15, 16, 17, 23, 24, 31, 32, 33, 47, 48, 63, 64, 65, 95, 96, 100, 126, 127, 128,
+const QUICK_WIDTHS: [u32; 25] = [
+    1, 2, 3, 4, 5, 6, 7, 8, 9, 10, 11, 12, 13, 15, 16, 17, 31, 32, 33, 63, 64, 65, 100, 127, 128,
 ];
 
 /// pairs of prefix shapes (the bit dimension is appended): [k,w] vs [w], [k,1,w] vs [m,w], ...
@@ -434,7 +434,7 @@ pub fn run(tier: &str, seed: u64, out: &mut Out) {
         (1..=128).collect()
     } else {
         let mut v = QUICK_WIDTHS.to_vec();
-        for _ in 0..3 {
+        for _ in 0..2 {
             let w = 18 + rng.below(109) as u32;
             if !v.contains(&w) {
                 v.push(w);
@@ -465,7 +465,7 @@ pub fn run(tier: &str, seed: u64, out: &mut Out) {
     for &(sa, sb) in BCAST.iter() {
         for &w in bw.iter() {
             for &sg in modes.iter() {
-                if !(thorough || search) && !rng.chance(3, 8) {
+                if !(thorough || search) && !rng.chance(1, 4) {
                     continue;
                 }
                 let na: u64 = sa.iter().product();
